@@ -680,6 +680,28 @@ def renderCmd {ν : NumModel} : Command ν → Text
 def parse (ν : NumModel) (s : String) : Except Err (List (Command ν)) := parseText ν s.toList
 def render {ν : NumModel} (o : Operation ν) : String := String.ofList o.expr
 
+/-! ## the hypothesis on numbers and the parser's range (used by the C14 theorems) -/
+
+/-- `repr(x)` is a complete `SIGNED_NUMBER` token and `float(repr(x)) = x` (true of every finite
+Python float; false for `inf`/`nan`, known finding F16) -/
+structure NumOk (ν : NumModel) (x : ν.N) : Prop where
+  tok : numTokOk (ν.repr x) = true
+  roundtrip : ν.ofTok (ν.repr x) = x
+
+/-- the operations `TreeToOperation` can build: command a `WORD`, name the inside of an
+`ESCAPED_STRING` (any text without newline in which every `"` is escaped and that does not end in an odd
+run of backslashes), time a finite float or absent; `expr` as built by the transformer -/
+inductive InRange (ν : NumModel) : Operation ν → Prop
+  | full {c n : Text} {t : ν.N} : wordOk c = true → nameOk n = true → NumOk ν t → InRange ν (mkFull ν c n t)
+  | time {c : Text} {t : ν.N} : wordOk c = true → NumOk ν t → InRange ν (mkTime ν c t)
+  | skill {c n : Text} : wordOk c = true → nameOk n = true → InRange ν (mkSkill ν c n)
+
+/-- a command the writer may print: an operation in range whose command word is not `x`
+(a line `x 3.0` followed by another line is ambiguous in the grammar), or a `!debug` line -/
+inductive CmdInRange (ν : NumModel) : Command ν → Prop
+  | op {o : Operation ν} : InRange ν o → o.command ≠ ['x'] → CmdInRange ν (.op o)
+  | console {s : Text} : nameOk s = true → CmdInRange ν (.console s)
+
 /-! ## the runtime text: header, `---`, body -/
 
 /-- Python `str.isspace()` code points (what `str.strip()` removes) -/
